@@ -503,7 +503,7 @@ def sample_configs(ck: Check) -> list[dict]:
     # and every controller-synthesis run is executed under a harness time limit (a run that exceeds it yields no verdict)
     cheap = {"stuart_landau": ["linear", "linear_2", "cubic", "quadratic", "peaks_1", "peaks_2"],
              "lorenz": ["ann", "cubic", "quadratic", "peaks_1", "min_ann_1"]}
-    limit = 20 if q else 120
+    limit = 90 if q else 300     # a ceiling against hangs only (a loaded machine must not turn runs into "no verdict")
     raw = [sl2, lo] if q else [sl2] * 5 + [lo] * 4 + [sl] * 2
     for sysd in raw:
         names = sorted(ctrl_controllers(ctrl_system({**sysd})).keys())
